@@ -132,6 +132,43 @@ theorem act13_1_hasUUID (gen : Nat → Str) (n : Nat) (a : JO) : TemplatingHasUU
 theorem mig13_1_hasUUID (gen : Nat → Str) (n : Nat) (f : JO) : allActions TemplatingHasUUID (mig13_1 gen n f).2 :=
   allActions_onActions (act13_1 gen) TemplatingHasUUID (act13_1_hasUUID gen) n f
 
+/-! ## 13.4: every templating object has its components and neither `uuid` nor `variables` -/
+
+def TemplatingHasComponents (a : JO) : Prop :=
+  isType "send_msg" a = true → ∀ t, get "templating".toList a = some (.obj t) →
+    get "uuid".toList t = none ∧ get "variables".toList t = none ∧ ∃ cs, get "components".toList t = some (.arr cs)
+
+theorem act13_4_hasComponents (gen : Nat → Str) (s : Nat × Option JO) (a : JO) : TemplatingHasComponents (act13_4 gen s a).2 := by
+  by_cases hty : isType "send_msg" a = true
+  · by_cases hobj : ∃ t, get "templating".toList a = some (.obj t)
+    · obtain ⟨t, ht⟩ := hobj
+      obtain ⟨t', h1, h2, h3, h4⟩ := C16Steps.act13_4_shape gen s a t hty ht
+      intro _ t'' ht''
+      rw [h1] at ht''
+      cases ht''
+      exact ⟨h2, h3, _, h4⟩
+    · have : act13_4 gen s a = (s, a) := by
+        unfold act13_4
+        rw [if_pos hty]
+        split
+        · rename_i t ht; exact absurd ⟨t, ht⟩ hobj
+        · rfl
+      rw [this]
+      intro _ t ht
+      exact absurd ⟨t, ht⟩ hobj
+  · have : act13_4 gen s a = (s, a) := by
+      unfold act13_4; rw [if_neg hty]
+    rw [this]
+    intro h
+    exact absurd h hty
+
+/-- **After 13.4 every templating object of a `send_msg` action has a component list and neither `uuid` nor `variables`.** -/
+theorem mig13_4_hasComponents (gen : Nat → Str) (n : Nat) (f : JO) : allActions TemplatingHasComponents (mig13_4 gen n f).2 := by
+  unfold mig13_4
+  simp only
+  rw [allActions_putLocalization]
+  exact allActions_onActions (act13_4 gen) TemplatingHasComponents (act13_4_hasComponents gen) _ f
+
 /-! ## 13.6: names and categories of `set_run_result` actions within the limits -/
 
 def NamesWithinLimits (a : JO) : Prop :=
